@@ -479,6 +479,8 @@ func genTrees(c *genCtx) error {
 		for _, d := range depths {
 			for _, sh := range [][3]string{{"[", "]", ""}, {"[", "]", "1"}, {`{"a":`, "}", "1"}, {`{"a":`, "}", "{}"}, {`[{"a":`, "}]", "null"}, {`{"a":[`, "]}", `"s"`},
 				// invalid UTF-8 in the deepest container and in the keys on the way down (the slice/map helpers at depth)
+				// every level's deep member preceded by a sibling container (levels handed to recycled child readers)
+				{"[[],", "]", "1"}, {`{"s":{},"a":`, "}", "1"}, {"[{},", "]", "[]"}, {`{"s":[1],"a":[[],`, "]}", "1"},
 				{"[", "]", "\"v\xff\""}, {"{\"k\xfe\":", "}", "\"v\xff\""}, {"[{\"a\xc3\":", "}]", "[\"\xe2\x82\"]"}} {
 				per := 1
 				if len(sh[1]) == 2 {
